@@ -22,6 +22,7 @@ inductive Obs
   | rejected                    -- error from DecodeAndValidate / the reader / the first factory call
   | accepted (v : Option DVal)  -- accepted; the decoded root value when it was observed
   | discards (ds : List Bool)   -- CLI reader: accepted, `DiscardOverflow` of the pools
+  | crashed                     -- the reader panicked
   | unknown                     -- not an outcome of config decoding (constructor error, harness trouble)
   deriving Repr
 
@@ -34,9 +35,10 @@ def castExpect (k : Kind) (raw : Str) : Option DVal :=
   | .uint bits => (parseUintLit raw).bind fun n => if uintFits bits n then some (.uint n) else none
   | .float _ => (parseDecLit raw).map DVal.float
   | .dur =>
-    match parseDuration raw with
-    | some ns => some (.int ns)
-    | none => (parseIntLit raw).bind fun i => if intFits 64 i then some (.int i) else none
+    -- a plain integer is a number of nanoseconds (as for a YAML integer); otherwise Go duration syntax
+    match (parseIntLit raw).bind fun i => if intFits 64 i then some (DVal.int i) else none with
+    | some w => some w
+    | none => (parseDuration raw).map DVal.int
 
 def stepPtr : DVal → DVal
   | .ptr v => v
@@ -94,10 +96,12 @@ def checkValue (loc : Option (List Str)) (want : DVal) : Obs → Verdict
       | some got => if sameValue got want then .ok else .fail "value"
       | none => .fail "no-such-field"
   | .discards _ => .ok
+  | .crashed => .fail "panic"
   | .unknown => .inconclusive
 
 /-- does the observation meet the expectation? -/
 def holds : Expect → Obs → Verdict
+  | _, .crashed => .fail "panic"
   | _, .unknown => .inconclusive
   | .reject, .rejected => .ok
   | .reject, _ => .fail "accepted"
